@@ -123,7 +123,8 @@ def render(cfg, dev):
     out = []
     if dev:
         for i in sorted(cfg.get("ifs", [])):
-            out += ["interface " + IFHW[i], " nameif " + i, " security-level 0", "!"]
+            out += ["interface " + IFHW[i]] + ([" shutdown"] if i in cfg.get("shut", []) else []) + \
+                   [" nameif " + i, " security-level 0", "!"]
     for g in sorted(cfg["groups"]):
         typ = cfg["groups"][g]["typ"]
         if typ.startswith("service-"):
